@@ -56,6 +56,10 @@ type Case struct {
 	CLI *CLICase `json:"cli,omitempty"`
 	// only the command line part (the enumeration of spellings)
 	CLIOnly bool `json:"cli_only,omitempty"`
+	// what an interrupted writer left in the prefix directory of store 1 (store_test.go)
+	Leftovers []Leftover `json:"leftovers,omitempty"`
+	// additionally: clients storing one ID into one directory at the same time (store_test.go)
+	Conc *ConcCase `json:"conc,omitempty"`
 }
 
 func genLen(t *rapid.T, size string) int {
@@ -109,6 +113,17 @@ func genCase(t *rapid.T) Case {
 	c.Prov[1] = genProv(t, "prov1")
 	if rapid.IntRange(0, 7).Draw(t, "cli") == 0 {
 		c.CLI = genCLI(t)
+	}
+	c.Leftovers = genLeftovers(t)
+	// 1 in 32 (thorough: 8), by fair single-bit draws (rapid favours the ends of integer ranges)
+	conc := true
+	for i := 0; i < hx.Pick(5, 3); i++ {
+		if !rapid.Bool().Draw(t, "conc") {
+			conc = false
+		}
+	}
+	if conc {
+		c.Conc = genConc(t)
 	}
 	return c
 }
@@ -327,6 +342,7 @@ type model struct {
 	id       desync.ChunkID  // same, binary
 	data     []byte          // the chunk
 	everBoth bool
+	ignore   map[string]bool // planted leftovers: theirs to stay or go
 }
 
 func (m *model) present(unc bool) bool { return m.state[unc] != absent }
@@ -364,7 +380,7 @@ func (m *model) compare(o *hx.Outcome, base string, whoActed bool, op string) {
 		}
 	}
 	for name := range s.files {
-		if name != m.path[false] && name != m.path[true] {
+		if name != m.path[false] && name != m.path[true] && !m.ignore[name] {
 			o.Fail("C20:layout:extra-file", "%s store: unexpected file %s after %s of the %s client", m.label, name, op, modeName(whoActed))
 		}
 	}
@@ -697,8 +713,26 @@ func run(c Case) (o hx.Outcome) {
 	firstUnc := c.Mode == "uncompressed"
 	var desyncFrame *frameInfo
 	var provs [2]ProvSpec
+	planted := map[string]bool{}
+	m1.ignore = planted
+	if len(c.Leftovers) == 0 {
+		o.Class("store:leftover:none")
+	}
 	for step, unc := range []bool{firstUnc, !firstUnc} {
 		me := modeName(unc)
+		for _, lo := range c.Leftovers {
+			lo = lo.norm()
+			if lo.When != step {
+				continue
+			}
+			name := sid[:4] + "/" + lo.fileName(sid, c.Seed)
+			mustWrite(filepath.Join(base1, filepath.FromSlash(name)), lo.bytes(data))
+			planted[name] = true
+			o.Class(lo.classes()...)
+		}
+		if step == 0 && len(planted) > 0 {
+			seesNothing(&o, base1, id, "desync-written store holding only leftovers of interrupted writers ("+leftoverKey(c.Leftovers)+")")
+		}
 		st, err := desync.NewLocalStore(base1, desync.StoreOptions{Uncompressed: unc})
 		if err != nil {
 			o.Fail("C20:store:open", "NewLocalStore(%s): %v", me, err)
@@ -707,12 +741,17 @@ func run(c Case) (o hx.Outcome) {
 		p := c.Prov[step].norm()
 		provs[step] = p
 		o.Class(p.classes(unc)...)
-		before := snapshot(base1)
+		before := snapshot(base1).without(planted)
 		if !storeVia(&o, p, st, unc, filepath.Join(root, fmt.Sprintf("src%d", step)), id, sid, data) {
 			continue
 		}
-		after := snapshot(base1)
-		ok, fi, cross := judgeStore(&o, m1, before, after, unc, data, c.Fill, p.key())
+		after := snapshot(base1).without(planted)
+		via := p.key()
+		if len(planted) > 0 {
+			via += "; leftovers in the prefix directory: " + leftoverKey(c.Leftovers)
+		}
+		storedIsVisible(&o, st, unc, id, data, me+" store, chunk "+via)
+		ok, fi, cross := judgeStore(&o, m1, before, after, unc, data, c.Fill, via)
 		if fi != nil {
 			desyncFrame = fi
 		}
@@ -814,6 +853,13 @@ func run(c Case) (o hx.Outcome) {
 		crossEntropy = true // desync decoded (GetChunk, Verify, HTTP) an entropy-coded frame of the other implementation
 	}
 
+	// ---- clients storing the same ID at the same time
+	concKey := ""
+	if c.Conc != nil {
+		runConc(&o, c, root)
+		concKey = fmt.Sprintf("%+v", c.Conc.norm())
+	}
+
 	// ---- the command line tool and its config file
 	cliKey, cliRan := "", false
 	if c.CLI != nil && cliBin() != "" {
@@ -879,8 +925,9 @@ func run(c Case) (o hx.Outcome) {
 	o.Desc = map[string]any{"build": buildName, "desync": desyncImpl, "other": other.Name(), "len": len(data), "fill": c.Fill,
 		"first_writer": c.Mode, "s2_cacnk": c.Cacnk, "s2_raw": raw0, "corrupt": c.Corrupt, "first": c.First, "n": c.N,
 		"repair": c.Repair, "keep": c.Keep, "desync_frame": dfd, "other_frame": ofd,
-		"prov_first": provs[0].key(), "prov_second": provs[1].key(), "cli": cliKey}
-	o.Key = fmt.Sprintf("%s/%d/%s/%s/%s/%s/%s/%s/%v/%v/%s/%s", buildName, len(data), c.Fill, c.Mode, c.Cacnk, raw0, c.Corrupt, c.First, c.Repair, c.Keep, provs[0].key(), provs[1].key()) + "/" + cliKey
+		"prov_first": provs[0].key(), "prov_second": provs[1].key(), "cli": cliKey,
+		"leftovers": leftoverKey(c.Leftovers), "conc": concKey}
+	o.Key = fmt.Sprintf("%s/%d/%s/%s/%s/%s/%s/%s/%v/%v/%s/%s", buildName, len(data), c.Fill, c.Mode, c.Cacnk, raw0, c.Corrupt, c.First, c.Repair, c.Keep, provs[0].key(), provs[1].key()) + "/" + cliKey + "/" + leftoverKey(c.Leftovers) + "/" + concKey
 	return o
 }
 
@@ -898,6 +945,7 @@ func required() []string {
 		"cross-decode:entropy-coded",
 	}
 	r = append(r, provRequired()...)
+	r = append(r, storeRequired()...)
 	r = append(r, "build:desync="+desyncImpl+",other="+other.Name())
 	// (the driver checks the required classes separately for each build)
 	return r
@@ -906,7 +954,7 @@ func required() []string {
 var spec = &hx.Spec[Case]{
 	ID:    "C20",
 	Level: "exploration",
-	Rule: "cases = (chunk of 1 byte .. 1 MiB: zero/random/text/mixed; desync client that writes first; for each of the two StoreChunk calls into the desync-written store the provenance of the chunk: NewChunk | NewChunkWithID | GetChunk from a source LocalStore | through desync.Cache | through desync.Copy | through RemoteHTTP from a chunk server | PUT to a chunk server over the destination, with source/wire format same as or opposite to the destination, SkipVerify of the source, Data() called before storing or not; a second store directory holding <id>.cacnk in {absent, one-shot frame, streaming frame without content size, corrupt} written by the other zstd implementation and <id> in {absent, valid, corrupt}; client order, verify workers/repair, prune keep set); " +
+	Rule: "cases = (chunk of 1 byte .. 1 MiB: zero/random/text/mixed; desync client that writes first; for each of the two StoreChunk calls into the desync-written store the provenance of the chunk: NewChunk | NewChunkWithID | GetChunk from a source LocalStore | through desync.Cache | through desync.Copy | through RemoteHTTP from a chunk server | PUT to a chunk server over the destination, with source/wire format same as or opposite to the destination, SkipVerify of the source, Data() called before storing or not; 0..3 leftovers of interrupted writers (.tmp-cacnk.<id>, .tmp-cacnk.<id>.cacnk, other IDs, random suffixes; empty, partial or complete content of either format) planted in the prefix directory before the first or the second StoreChunk; in 1 of 32 cases (thorough: 8) additionally a directory into which a compressed and an uncompressed client (or two of each, or three of one format) store one ID at the same time for 8..20 (thorough 40..120) rounds with shifting start offsets; a second store directory holding <id>.cacnk in {absent, one-shot frame, streaming frame without content size, corrupt} written by the other zstd implementation and <id> in {absent, valid, corrupt}; client order, verify workers/repair, prune keep set); " +
 		"the package runs once per build (desync=klauspost/other=libzstd and desync=libzstd/other=klauspost); " +
 		"non-trivial = a frame with at least one compressed-type block was decoded across implementations (other decodes desync's file, or desync reads the other's file), or the generated store held both formats of the ID (the store of a command-line case always does); " +
 		"distinct by (build, length, fill, first writer, .cacnk state, raw state, corruption kind, client order, repair, keep, provenance of both stored chunks)",
@@ -917,6 +965,8 @@ var spec = &hx.Spec[Case]{
 		"github.com/DataDog/zstd v1.5.2 (bundled libzstd 1.5.2) stands for the reference libzstd",
 		"coexistence is checked for LocalStore and desync.NewHTTPHandler on top of it; S3/SFTP stores belong to C16",
 		"what Verify prints or removes for a corrupt file of the client's own format is not judged here (C16)",
+		"planted leftovers (.tmp-cacnk*) may stay or disappear at any time without a verdict (Prune removes them: C16); they must never be taken for the chunk, and a StoreChunk that returns nil must have produced the client's own object whatever lies in the directory",
+		"the concurrent part has no hook inside StoreChunk: overlap of the writers comes from releasing them together, from free-running store/look/remove loops of one client per format, and from start offsets (busy loops, a dummy compression) that shift from round to round; a defect that needs a particular interleaving is found with a probability, not with certainty",
 		"source stores of the provenance dimension are written by hand (raw bytes, or one frame made by the other implementation or by desync.Compress), never by the StoreChunk under test; a Chunk's internal state is not observable (unexported fields): 'storage-only' is inferred from SkipVerify of the source and no Data()/ID() call before storing",
 		"the chunk server and its client of the http/put provenances are desync.NewHTTPHandler and desync.RemoteHTTP over a loopback httptest server (put with a body of the other implementation: request made in-process)",
 	},
@@ -995,6 +1045,53 @@ func TestEnum(t *testing.T) {
 	}
 	hx.Exhaustive("provenance grid of the stored chunk (kind x source/wire format x SkipVerify x touched) x destination format for the listed lengths")
 	hx.Exhaustive("store-state grid {.cacnk: absent/one-shot/stream/corrupt} x {raw: absent/valid/corrupt} x fill x first writer for the listed boundary lengths")
+}
+
+// TestEnumStore: every leftover name x content x moment x first writer, and every kind of
+// concurrent writers for a few lengths.
+func TestEnumStore(t *testing.T) {
+	k := 0
+	for ni, name := range leftoverNames {
+		for ci, content := range leftoverContents {
+			for when := 0; when < 2; when++ {
+				for _, mode := range []string{"compressed", "uncompressed"} {
+					k++
+					if k%hx.Shards() != hx.Shard() {
+						continue
+					}
+					c := Case{Size: "enum-store", Fill: []string{"text", "rand", "zero"}[(ni+ci)%3], Len: []int{1, 700, 5000}[(ni+ci+when)%3], Seed: uint64(k) * 104729, Mode: mode,
+						Cacnk: "oneshot", Raw: "valid", Corrupt: "otherdata", First: []string{"compressed", "uncompressed"}[k%2], N: 1 + k%3, Repair: k%2 == 0, Keep: k%3 == 0,
+						Leftovers: []Leftover{{Name: name, Content: content, When: when}}}
+					if !hx.Case(t, spec, c) {
+						return
+					}
+				}
+			}
+		}
+	}
+	kc := 0
+	for ki, kind := range concKinds {
+		for li, l := range hx.Pick([]int{64, 512}, []int{16, 256, 512, 1024}) {
+			for rep := 0; rep < hx.Pick(1, 6); rep++ {
+				k++
+				kc++
+				if k%hx.Shards() != hx.Shard() {
+					continue
+				}
+				c := Case{Size: "enum-store", Fill: []string{"rand", "text"}[(ki+li+rep)%2], Len: 100, Seed: uint64(k) * 15485863, Mode: "compressed",
+					Cacnk: "absent", Raw: "valid", Corrupt: "otherdata", First: "compressed", N: 1, Keep: true,
+					Conc: &ConcCase{Kind: kind, Rounds: hx.Pick(16, 120), LenKiB: l, Spin: 1 + 5*rep + li}}
+				if !hx.Case(t, spec, c) {
+					return
+				}
+			}
+		}
+	}
+	if hx.Shard() == 0 {
+		hx.AddNote("enum_store_cases", k)
+		hx.AddNote("enum_concurrent_cases", kc)
+	}
+	hx.Exhaustive("leftover grid (name x content x before which StoreChunk x first writer)")
 }
 
 // TestEnumCLI: every pair (spelling of the config key, spelling of the command-line argument)
